@@ -6,6 +6,7 @@ import GoatProofs.C07JWE
 import GoatProofs.C07JWK
 import GoatProofs.C07Custom
 import GoatProofs.C07KW
+import GoatProofs.C07Registry
 /-
 C07 — no attacker-supplied input can crash the process.  Umbrella module.
 
@@ -17,5 +18,6 @@ C07 — no attacker-supplied input can crash the process.  Umbrella module.
   C07JWK      jwk.ParseKey / ParseMap / ParseSet / DecodePEM / MarshalJSON / Thumbprint, cose.ParseMap
   C07Custom   jwt.Claims.DecodeCustom                                          (model of C10)
   C07KW       key unwrapping and content decryption of every registered algorithm (models of C12)
+  C07Registry Available() really guards New(), for every link set, from the regenerated body shapes
   Lemmas/C07NoPanic   PO.NoPanic / NoPanicOn / Post and the `nopanic`, `popost` tactics
 -/
